@@ -122,6 +122,41 @@ func genSmallLayout(t *rapid.T) Layout {
 
 // genValidBytes builds a valid message for the target from the specification.
 func genValidBytes(t *rapid.T, target string) []byte {
+	return genValidBytesAt(t, target, 1500000000)
+}
+
+// genBigCountFile: a header whose archive count is far beyond any real file (hundreds to thousands)
+// with a file long enough to hold the announced archive table (exercises the header re-read path).
+func genBigCountFile(t *rapid.T) []byte {
+	count := rapid.IntRange(330, 1500).Draw(t, "count")
+	hdr := EncodeLayoutHeader(Layout{Archives: []Arch{{Step: 1, Points: 60}}, Method: rapid.IntRange(1, 6).Draw(t, "method"), XFF: 0.5})
+	binary.BigEndian.PutUint32(hdr[12:], uint32(count))
+	size := 16 + 12*count + rapid.IntRange(0, 9000).Draw(t, "extra")
+	if rapid.IntRange(0, 4).Draw(t, "short") == 0 {
+		size = 16 + 12*count - rapid.IntRange(1, 12*count-12).Draw(t, "missing")
+	}
+	b := make([]byte, size)
+	copy(b, hdr)
+	switch rapid.IntRange(0, 2).Draw(t, "tableKind") {
+	case 0: // zero-filled table
+	case 1: // plausible contiguous entries
+		off := 16 + 12*count
+		for i := 0; i < count && 16+12*i+12 <= len(b); i++ {
+			binary.BigEndian.PutUint32(b[16+12*i:], uint32(off))
+			binary.BigEndian.PutUint32(b[16+12*i+4:], uint32(1<<uint(i%20)))
+			binary.BigEndian.PutUint32(b[16+12*i+8:], 2)
+			off += 24
+		}
+	default: // garbage after a plausible first entry
+		g := rapid.SliceOfN(rapid.Byte(), 64, 64).Draw(t, "garbage")
+		for i := 28; i < len(b); i++ {
+			b[i] = g[i%64]
+		}
+	}
+	return b
+}
+
+func genValidBytesAt(t *rapid.T, target string, now int64) []byte {
 	switch target {
 	case "header":
 		return EncodeLayoutHeader(genSmallLayout(t))
@@ -167,7 +202,7 @@ func genValidBytes(t *rapid.T, target string) []byte {
 		if rapid.Bool().Draw(t, "populated") {
 			off := 16 + 12*len(l.Archives)
 			for _, a := range l.Archives {
-				base := alignDown(1500000000, a.Step)
+				base := alignDown(now, a.Step)
 				for j := int64(0); j < a.Points && j < 50; j++ {
 					binary.BigEndian.PutUint32(b[off+int(12*j):], uint32(base+j*a.Step))
 					binary.BigEndian.PutUint64(b[off+int(12*j)+4:], math.Float64bits(float64(j)))
@@ -268,7 +303,14 @@ func genC15(t *rapid.T) C15Case {
 		c.Origin = "random"
 		return c
 	}
-	valid := genValidBytes(t, c.Target)
+	if c.Target == "file" && rapid.IntRange(0, 9).Draw(t, "epochHigh") == 0 {
+		c.Now = rapid.Int64Range(1<<31, 1<<32-100000).Draw(t, "nowHigh")
+	}
+	valid := genValidBytesAt(t, c.Target, c.Now)
+	if (c.Target == "file" || c.Target == "header") && rapid.IntRange(0, 9).Draw(t, "bigCount") == 0 {
+		c.Data, c.Origin = genBigCountFile(t), "big-archive-count"
+		return c
+	}
 	if c.Target == "file" && rapid.IntRange(0, 2).Draw(t, "damageSlots") == 0 {
 		// damage stored slot intervals (not the header): unaligned / shifted / extreme base intervals
 		if h, err := ParseWspHeader(valid); err == nil && len(h.Archives) > 0 {
@@ -346,8 +388,8 @@ func TestC15(t *testing.T) {
 		}
 	}()
 	RunProperty(t, Property[C15Case]{
-		ID: "C15",
-		Rule: "byte strings for 12 targets (every TakeFrom; Open on a file with those bytes followed by fetches, raw dumps, single and batch updates and Sync on a handle that opened; view / view-raw / sum against a hostile HTTP server replying with the bytes): 10% random, else a specification-encoded valid message mutated by truncation, bit flips, substitution of 32/64-bit fields by extreme constants (0, 1, 2^31-1, 2^31, 2^32-1, 0x15555556, values whose product with 8/12/16 wraps 32 or 64 bits) or body truncation; executed in a child process with RLIMIT_AS = 3 GiB. Violation: panic, child death (out of memory / stack overflow), or more than 1 MiB + 64 x input length bytes allocated (runtime/metrics /gc/heap/allocs:bytes). A 20 s per-input timeout is reported as inconclusive. Non-trivial: the input is at least as long as the decoder's fixed part (it reaches the size arithmetic). Distinct = hash of (target, bytes, clock).",
+		ID:          "C15",
+		Rule:        "byte strings for 12 targets (every TakeFrom; Open on a file with those bytes followed by fetches, raw dumps, single and batch updates and Sync on a handle that opened; view / view-raw / sum against a hostile HTTP server replying with the bytes): 10% random, else a specification-encoded valid message mutated by truncation, bit flips, substitution of 32/64-bit fields by extreme constants (0, 1, 2^31-1, 2^31, 2^32-1, 0x15555556, values whose product with 8/12/16 wraps 32 or 64 bits) or body truncation; executed in a child process with RLIMIT_AS = 3 GiB. Violation: panic, child death (out of memory / stack overflow), or more than 1 MiB + 64 x input length bytes allocated (runtime/metrics /gc/heap/allocs:bytes). A 20 s per-input timeout is reported as inconclusive. Non-trivial: the input is at least as long as the decoder's fixed part (it reaches the size arithmetic). Distinct = hash of (target, bytes, clock).",
 		Assumptions: []string{"allocation bound 1 MiB + 64 x input length (file targets: input length = file size)", "a hang is indistinguishable from slowness and is reported as inconclusive"},
 		Gen:         genC15,
 		Run:         runC15,
